@@ -1,6 +1,6 @@
 (* C15 - round trip: parsing the text written by to_text gives the entries back. *)
 From Coq Require Import List ZArith NArith Bool Lia.
-From LA Require Import Base.Val Gen.Defines Gen.AclConsts Entry.AclDefs Entry.AclLen Entry.AclParse.
+From LA Require Import Base.Val Gen.Defines Gen.AclConsts Entry.AclDefs Entry.AclBits Entry.AclParse.
 Import ListNotations.
 Local Open Scope N_scope.
 
